@@ -21,7 +21,9 @@ class LimitedStringIO(StringIO):
 
     def write(self, __s: str) -> int:  # noqa: D102
         if __s:
-            self.size += len(__s.encode("utf-8"))
+            # "surrogatepass" so that counting bytes can not fail on a lone surrogate
+            # that the unlimited StringIO would accept.
+            self.size += len(__s.encode("utf-8", "surrogatepass"))
             if self.size > self.limit:
                 raise OutputStreamLimitError("output stream limit reached", token=None)
         return super().write(__s)
